@@ -385,6 +385,12 @@ func runCheck(repo, verif, prop, tier string, verbose bool) int {
 			continue
 		}
 		f := g.failed[0]
+		if f.Kind == "arith" {
+			// signed overflow is not a panic: an undischarged no-overflow obligation means the
+			// mathematical-integer model is not justified for this function, i.e. not decided
+			undecided = append(undecided, "no-overflow obligation "+name+" could not be discharged (integer model not justified here)")
+			continue
+		}
 		if f.Kind == "auto-invariant" {
 			// a derived candidate invariant no longer holds: what was proved under it is not decided
 			undecided = append(undecided, "derived loop invariant "+name+" could not be established")
